@@ -624,6 +624,19 @@ func famCliMeth(o *Out, r *RNG, thorough bool) {
 				}
 			}
 		}
+		// the same odd values as PROPERTY texts of a multi-status (an entity tag cut short or weak or empty, a date or a
+		// length that is none): the call returns a value or an error, it never panics
+		if strings.HasPrefix(m.kind, "ms-") {
+			for _, etag := range []string{"\"", "W/\"", "W/", "", "\"\"", "e", "\"e", "e\"", "W/\"e\"", "\"\\", "'e'", " ", "W"} {
+				for _, lm := range []string{"Sun, 10 Mar 2024 01:00:00 GMT", "", "yesterday"} {
+					resp := E("DAV:", "response", E("DAV:", "href").T("/dav/u/cal/a/x.ics"), E("DAV:", "propstat",
+						E("DAV:", "prop", E("DAV:", "getetag").T(etag), E("DAV:", "getlastmodified").T(lm), E("DAV:", "getcontentlength").T(r.Pick([]string{"12", "", "-1", "x"})),
+							E("DAV:", "resourcetype", E("DAV:", "collection"), E(nsCal, "calendar"), E(nsCard, "addressbook"))),
+						E("DAV:", "status").T("HTTP/1.1 200 OK")))
+					emitCliMeth(o, m, &scriptClient{status: 207, ctype: "text/xml", body: randStyle(r).doc(E("DAV:", "multistatus", resp))}, "( oddprop )", false)
+				}
+			}
+		}
 		// header values a server may send with a good answer: entity tags that are not quoted strings (cut short, weak,
 		// empty), dates and lengths that are no dates or lengths -- the call returns (value or error), it never panics
 		if m.kind == "getobj" || m.kind == "putobj" || m.kind == "options" {
